@@ -1245,6 +1245,7 @@ class C33Xtriggers(Base):
             if ev['ok']:
                 self.n['successes'] += 1
                 self.succeeded[ev['sig']] = ev['it']
+                self.released.discard(ev['sig'])
         elif k == 'XTRIG_HOUSEKEEP':
             for sig in list(self.succeeded):
                 if sig not in ev['needed']:
@@ -1265,7 +1266,8 @@ class C33Xtriggers(Base):
                 except Exception:
                     continue
                 key = (itask.identity, label)
-                if sig in self.succeeded and not sat and \
+                if sig in self.succeeded and sig not in self.released \
+                        and not sat and \
                         itask.state.status == 'waiting' and \
                         not itask.state.is_runahead:
                     seen.add(key)
@@ -1411,7 +1413,10 @@ class C29Set(Base):
                     continue
                 self.n['spawn_checks'] += 1
                 if t['name'] == n and int(t['point']) > p and (
-                        not t['prereqs'] or gt['tasks'][n]['sequential']):
+                        not t['prereqs'] or gt['tasks'][n]['sequential']
+                        # (parentless in effect: all parents pre-initial)
+                        or all(int(x[0]) < gt['initial']
+                               for x in t['prereqs'])):
                     # the next parentless (or sequential) instance of the
                     # same task: spawned by the pool, not by the graph
                     self.n['spawned_parentless_successor'] += 1
@@ -1680,6 +1685,12 @@ class C30Remove(Base):
                        {'before': b})
                 continue
             for fld in ('status', 'flows', 'outputs', 'prereqs'):
+                if fld == 'flows' and set(b[fld]) <= set(a[fld]):
+                    # (a removal moves the runahead base: tasks spawned by
+                    # the release may merge their flows into a bystander)
+                    if a[fld] != b[fld]:
+                        self.n['bystander_flows_merged'] += 1
+                    continue
                 if a[fld] != b[fld]:
                     self.v(f'bystander-changed:{fld}',
                            f'{tid}: {fld} changed during removal of '
